@@ -54,6 +54,7 @@ def enumerate_cases(tier):
         for start in range(0, 0x110000, 1024):
             yield {"cps_range": [start, min(start + 1024, 0x110000)]}
         yield from special_positions()
+        yield from raw_cases()
         return
     special = set(range(0x80, 0x300))
     for b in (0x7FF, 0x800, 0x7FFF, 0x8000, 0xD7FF, 0xE000, 0xFFFD, 0xFFFF, 0x10000, 0x10FFFF, 0x1F600, 0x20000, 0xE0001, 0xF0000, 0x100000):
@@ -63,6 +64,7 @@ def enumerate_cases(tier):
     for i in range(0, len(cps), 512):
         yield {"cps": cps[i:i + 512]}
     yield from special_positions()
+    yield from raw_cases()
 
 
 @st.composite
@@ -133,6 +135,54 @@ def special_positions():
                            "footnote": {"text": ["@F0" + t, "@F1" + t], "as_table": fn_table, "text_convert": conv},
                            "source": {"text": ["@S0" + t], "as_table": not fn_table, "text_convert": conv},
                            "page_header": {"text": ["@P0" + t], "text_convert": conv}, "page_footer": {"text": ["@Q0" + t], "text_convert": conv}}
+
+
+def raw_cases():
+    """Texts that BEGIN with a special character (no sentinel tag in front): elements are identified by the fixed
+    document structure instead of by tags."""
+    for sp in SPECIALS:
+        for conv in (True, False):
+            yield {"raw": True, "sp": sp, "convert": conv}
+
+
+def raw_recipe(case):
+    sp, conv = case["sp"], case["convert"]
+    t = lambda s: sp + s
+    cols = [{"name": t("n0"), "dtype": "str", "values": [t("c00"), t("c10")]}, {"name": t("n1"), "dtype": "str", "values": [t("c01"), t("c11")]}]
+    hdr = "default" if case.get("auto_header") else [{"text": [t("h0"), t("h1")], "text_convert": conv}, {"text": [t("k0"), t("k1")], "text_convert": conv}]
+    return {"kind": "table", "page": {"nrow": 40}, "sections": [{"df": {"cols": cols}, "body": {"text_convert": conv}, "headers": hdr}],
+            "title": {"text": [t("T0"), t("T1")], "text_convert": conv}, "subline": {"text": [t("U0")], "text_convert": conv},
+            "footnote": {"text": [t("F0")], "as_table": True, "text_convert": conv}, "source": {"text": [t("S0")], "as_table": False, "text_convert": conv},
+            "page_header": {"text": [t("P0")], "text_convert": conv}, "page_footer": {"text": [t("Q0")], "text_convert": conv}}
+
+
+def check_raw(case, res):
+    from ..rtfread import Row
+    for auto in (False, True):
+        rec = raw_recipe(dict(case, auto_header=auto))
+        d = write_and_read(rec, "raw")
+        lexical(res, d, "document")
+        blocks = [b for pg in d.pages for b in pg]
+        paras = [b.text for b in blocks if isinstance(b, Para) and b.text]
+        rows = [[c.text for c in b.cells] for b in blocks if isinstance(b, Row)]
+        sec = rec["sections"][0]
+        want_paras = ["\n".join(rec["title"]["text"]), rec["subline"]["text"][0], rec["source"]["text"][0]]
+        hdr_rows = [[c["name"] for c in sec["df"]["cols"]]] if auto else [h["text"] for h in sec["headers"]]
+        want_rows = hdr_rows + R.expected_rows(sec) + [[rec["footnote"]["text"][0]]]
+        where_rows = (["default_header"] if auto else ["explicit_header", "explicit_header_row2"]) + ["body_cell", "body_cell", "footnote_table"]
+        if len(paras) != 3 or len(rows) != len(want_rows):
+            res.fail("roundtrip", "raw/structure", f"{len(paras)} paragraphs, {len(rows)} rows for special {case['sp']!r}")
+            continue
+        for w, g, where in zip(want_paras, paras, ("title", "subline", "source_paragraph")):
+            compare(res, where + "/text_start", w, g)
+        for w, g, where in zip(want_rows, rows, where_rows):
+            for k, (a, b) in enumerate(zip(w, g)):
+                compare(res, where + ("/first_cell" if k == 0 else "") + "/text_start", a, b)
+        for name, lst in (("page_header", d.headers), ("page_footer", d.footers)):
+            got = [b.text for bl in lst for b in bl if isinstance(b, Para) and b.text]
+            compare(res, name + "/text_start", rec[name]["text"][0], got[0] if got else "<missing>")
+    res.labels = ["raw_text_start", "convert=" + ("on" if case["convert"] else "off")]
+    res.nontrivial = True
 
 
 def strategy(tier):
@@ -215,6 +265,9 @@ def check(case) -> Result:
         if "cps" in case or "cps_range" in case:
             check_cps(case, res)
             return res
+        if case.get("raw"):
+            check_raw(case, res)
+            return res
         d = write_and_read(case, "pos")
     except Exception as e:
         import traceback
@@ -274,6 +327,8 @@ def check(case) -> Result:
 
 def reductions(case):
     from ..reduce import generic_reductions
+    if case.get("raw"):
+        return
     if "cps" in case or "cps_range" in case:
         cps = case.get("cps") or list(range(*case["cps_range"]))
         n = len(cps)
